@@ -168,7 +168,7 @@ pub fn run(ctx: &Ctx) -> i32 {
     finish(
         ctx,
         parts,
-        "syntactically valid programs (three quarters well-typed, one quarter with one injected semantic fault) in random layouts with comments in leading positions x formatting options (tabs; spaces with tab sizes 0..8); the response must be null or one edit replacing exactly the whole document under the client model; the applied result must have the same sequence of non-comment tokens (kinds and literal values, by an independent lexer) and the same diagnostics (messages and positions counted in code tokens); non-trivial = hex/char literal, else-if chain, branch without block or empty body present; distinct = distinct (text, options)",
+        "syntactically valid programs (three quarters well-typed, one quarter with one injected semantic fault) in random layouts with comments in leading positions x formatting options (tabs; spaces with tab sizes 0..8, 10, 16, 33); the response must be null or one edit replacing exactly the whole document under the client model; the applied result must have the same sequence of non-comment tokens (kinds and literal values, by an independent lexer) and the same diagnostics (messages and positions counted in code tokens); non-trivial = hex/char literal, else-if chain, branch without block or empty body present; distinct = distinct (text, options)",
         &["comments only in leading positions (other positions are C10's subject)", "diagnostic positions are compared as ordinals of non-comment tokens because formatting moves whitespace"],
         json!({}),
     )
